@@ -294,6 +294,12 @@ def impl_outputs(mod, lines, jobs):
 def run_property(pid, tier, seed, replay=None):
     t0 = time.time()
     log = []
+    if replay is None:
+        rdir = os.path.join(VERIF, "replays")
+        if os.path.isdir(rdir):
+            for fn in os.listdir(rdir):
+                if fn.startswith(pid + "-"):
+                    os.unlink(os.path.join(rdir, fn))
     mod = importlib.import_module(f"harness.props.{pid.lower()}")
     rng = random.Random(seed * 1000003 + int(hashlib.sha256(pid.encode()).hexdigest()[:8], 16))
     proof = proof_side(pid, getattr(mod, "REQUIRED_THEOREMS", []), log)
